@@ -803,6 +803,8 @@ def sym_eq_val(a, b):
         bp = b.payload if isinstance(b, SymOpt) else b
         inner = tm.TRUE if ap is None or bp is None else B(sym_eq_val(ap, bp))
         return wrap_bool(tm.Or(tm.And(an, bn), tm.And(tm.Not(an), tm.Not(bn), inner)))
+    if type(a).__name__ == "Unknown" or type(b).__name__ == "Unknown":
+        return True  # untracked fields are not compared
     if isinstance(a, SymObj) and isinstance(b, SymObj):
         ts = [B(sym_eq_val(a._fields[k], b._fields[k])) for k in a._fields if k in b._fields
               and not isinstance(a._fields[k], SymObj) or (k in b._fields and isinstance(a._fields[k], SymObj)
@@ -1118,12 +1120,42 @@ class SymMap(SymBase):
         c = cur()
         if not c.fork(self.contains_t(key)):
             if default:
+                c.event("map.pop", target=self, key=key, present=tm.FALSE, value=default[0])
                 return default[0]
             raise KeyError(key)
         v = self._val(key)
         self.has = tm.Store(self.has, self.kterm(key), tm.FALSE)
         c.writes.append((self, "[]"))
+        c.event("map.pop", target=self, key=key, present=tm.TRUE, value=v)
         return v
+
+    def popitem(self):
+        """Remove and return some (key, value) pair; KeyError when empty."""
+        c = cur()
+        if not c.fork(self.__symtruth__()):
+            raise KeyError("popitem(): dictionary is empty")
+        kt = c.fresh(c.fresh_name(self.name + ".popitem.key"), self.ksort)
+        c.pc.append(tm.Select(self.has, kt, BOOL))
+        k = self.kwrap(kt)
+        v = self._val(k)
+        self.has = tm.Store(self.has, kt, tm.FALSE)
+        c.writes.append((self, "[]"))
+        c.event("map.popitem", target=self, key=k, value=v)
+        return k, v
+
+    def __symtruth__(self):
+        """A map is true iff it has at least one key (count > 0)."""
+        c = cur()
+        hs = self.has.sort
+        cnt = c.decls.fun("count_" + self.ksort, [hs], INT)(self.has)
+        c.pc.append(tm.Ge(cnt, tm.mk_int(0)))
+        # definitional instance: an empty map (constant false array) has count 0
+        empty = tm.ConstArray(hs, tm.FALSE)
+        c.pc.append(tm.Eq(c.decls.fun("count_" + self.ksort, [hs], INT)(empty), tm.mk_int(0)))
+        return tm.Gt(cnt, tm.mk_int(0))
+
+    def __bool__(self):
+        return cur().fork(self.__symtruth__())
 
     def __iter__(self):
         raise Unsupported("native iteration over a symbolic map (loop transform missing)")
